@@ -458,7 +458,7 @@ func genC04(t *rapid.T, cfg *core.Config) *core.Case {
 	spec := core.GenEnvSpec(t, "", 4)
 	c := pcase("C04", "contain")
 	c.Env = spec
-	kind := rapid.SampledFrom([]string{"typed", "typed", "ill-typed", "ill-typed", "token-mutated", "token-mutated", "hostile", "untyped-shape"}).Draw(t, "srckind")
+	kind := rapid.SampledFrom([]string{"typed", "typed", "ill-typed", "ill-typed", "token-mutated", "token-mutated", "hostile", "untyped-shape", "constexpr-call"}).Draw(t, "srckind")
 	c.P["srckind"] = kind
 	g := core.NewGen(t, spec, rapid.IntRange(3, 25).Draw(t, "fuel"), map[string]bool{})
 	pr := &core.Printer{Parens: core.ParenMode(rapid.IntRange(0, 2).Draw(t, "parens")), Choose: func(n int, l string) int { return rapid.IntRange(0, n-1).Draw(t, l) }}
@@ -486,6 +486,14 @@ func genC04(t *rapid.T, cfg *core.Config) *core.Case {
 			toks = append(toks, tk.Text)
 		}
 		c.Source = strings.Join(c04MutateTokens(t, toks), rapid.SampledFrom([]string{" ", " ", ""}).Draw(t, "sep"))
+	case "constexpr-call":
+		// calls with constant arguments of functions that are (below) marked ConstExpr: executed at compile time,
+		// where they may panic with any kind of value, return nil, or not be functions at all
+		call := rapid.SampledFrom([]string{`Boom(1)`, `Div(1, 0)`, `Div(7, 2)`, `Rep("a", -1)`, `Rep("ab", 2)`, `Sq(3)`, `Coalesce(nil, nil)`, `Coalesce(nil, 1)`, `Pick(Xs, 0)`, `Inc(1)`,
+			`NilFn(1)`, `I(1)`, `Nope(1)`, `Half(3)`, `Neg(1.5)`, `Join("a", "b")`, `Sum()`, `Tuple(1, nil)`, `IsPos(0)`}).Draw(t, "cecall")
+		c.Source = rapid.SampledFrom([]string{"%s", "[1, %s]", "true or %s == 1", "len([%s, %s])", "Inc(1) + (false ? %s : 2)", "{a: %s}.a", "map(1..2, {%s})"}).Draw(t, "cectx")
+		c.Source = strings.ReplaceAll(c.Source, "%s", call)
+		c.P["cefn"] = call[:strings.IndexByte(call, '(')]
 	case "hostile":
 		c.Source = rapid.SampledFrom(c04Hostile).Draw(t, "hostile")
 		if rapid.Bool().Draw(t, "combine") {
@@ -535,6 +543,12 @@ func genC04(t *rapid.T, cfg *core.Config) *core.Case {
 	if rapid.IntRange(0, 4).Draw(t, "usece") == 0 {
 		for i, n := 0, rapid.IntRange(1, 2).Draw(t, "nce"); i < n; i++ {
 			ces = append(ces, rapid.SampledFrom(c04ConstExprs).Draw(t, "constexpr"))
+		}
+	}
+	if fn := c.Str("cefn"); fn != "" {
+		ces = append(ces, fn)
+		if c.Str("env") == "none" || c.Str("env") == "typedmap" {
+			c.P["env"] = "struct"
 		}
 	}
 	c.P["operators"], c.P["constexpr"] = ops, ces
